@@ -41,6 +41,11 @@ TX = {
         ("K8", "{1, 2, 3, 4, 5, 6, 7, 8}", "{1, 2, 3}", "{FALSE, TRUE}", "{FALSE, TRUE}", False),
     ],
 }
+# G-sim pass of the receiver: random behaviours (several injected records in a row, phase changes included);
+# in simulation TLC prints every out-edge of every visited state with the real, unmerged history.
+# The flip alphabet is cut to the 8 bits of the content-type byte so that it does not drown the other classes.
+SIM = {"quick": dict(num=40, depth=6), "thorough": dict(num=400, depth=8)}
+SIM_FB = dict(FbApp=8, FbAlert=8, FbHs=8, FbCcs=8)
 REPS = {"quick": dict(normal=3, burst=400, early=40), "thorough": dict(normal=40, burst=5000, early=600)}
 
 
@@ -57,6 +62,7 @@ CONSTANTS
   Part = "{part}"
   Deviations = {deviations}
   Roles = {{"client", "server"}}
+  InitPhases = {{"NoKeys", "KeysPending", "Connected", "Closed"}}
   FlipBits <- MCFlipBits
   FbApp = {fb['FbApp']}
   FbAlert = {fb['FbAlert']}
@@ -93,19 +99,22 @@ def rm(path):
 # ------------------------------------------------------------------------------------------ receiver (R)
 
 def edge_key(e):
-    return json.dumps([e["role"], e["phase"], e["act"]], sort_keys=True)
+    return json.dumps([e["role"], e["pre"], e["act"]], sort_keys=True)
 
 
-def rx_edges(ck, tier, fb=None):
-    """TLC: design check (OnlyAuthentic) + edge generation. Returns the path of the de-duplicated edges."""
-    cfg = gen_cfg(f"rx_{tier}")
+def rx_edges(ck, tier, fb=None, sim=None):
+    """TLC: design check (OnlyAuthentic) + edge generation (G-edge; with sim: G-sim).
+    Returns the path of the de-duplicated edges."""
+    name = f"rx_{tier}" + ("_sim" if sim else "")
+    cfg = gen_cfg(name)
     write_cfg(cfg, "rx", fb=fb or RX[tier], emit="EmitEdge")
-    raw = os.path.join(ck.dir, f"edges_raw_{tier}.ndjson")
+    raw = os.path.join(ck.dir, f"edges_raw_{name}.ndjson")
     res = vlib.tlc("MC_DtlsRecord", os.path.basename(cfg), tags=("EDGE",), sinks={"EDGE": raw},
-                   timeout=1500, heap="6g", tag=f"C03rx{tier}")
+                   timeout=1500, heap="6g", tag=f"C03{name}",
+                   simulate=sim["num"] if sim else None, depth=sim["depth"] if sim else None)
     rm(cfg)
-    vlib.tlc_ok(res, "rx")
-    ck.add_tlc(res, f"rx/{tier}")
+    vlib.tlc_ok(res, name)
+    ck.add_tlc(res, name.replace("_", "/", 1))
     seen, rows = set(), []
     with open(raw) as f:
         for line in f:
@@ -114,7 +123,7 @@ def rx_edges(ck, tier, fb=None):
             if k not in seen:
                 seen.add(k)
                 rows.append(e)
-    edges = os.path.join(ck.dir, f"edges_{tier}.ndjson")
+    edges = os.path.join(ck.dir, f"edges_{name}.ndjson")
     vlib.write_ndjson(edges, rows)
     rm(raw)
     return edges, rows, res
@@ -136,7 +145,9 @@ def replay_edges(ck, edges_path, label):
     summ = [r for r in rows if r.get("type") == "summary"][0]
     tool = [r for r in rows if r.get("type") == "tool"]
     if tool:
-        raise vlib.ToolError(f"dtlsrec inject: {len(tool)} edges could not be executed, e.g. {tool[0]}")
+        # edges that could not be executed are never a verdict; they turn the run into a tool error
+        # unless executed edges already show a violation (finish() decides)
+        ck.tool_errors = getattr(ck, "tool_errors", []) + [f"inject/{label}: {len(tool)} edges not executed, e.g. {json.dumps(tool[0])[:300]}"]
     for r in rows:
         if r.get("type") != "divergence":
             continue
@@ -243,7 +254,7 @@ def validate_trace(ck, trace, label):
 C03_TX_RULES = {"NonceUnique", "EpochProtected", "Encrypted", "RecordLimit", "PayloadCarried"}
 
 
-def judge_trace(ck, trace, bad):
+def judge_trace(ck, trace, bad, rows):
     ev = vlib.read_ndjson(trace)
     scen = None
     scen_of = {}
@@ -253,7 +264,9 @@ def judge_trace(ck, trace, bad):
         scen_of[i] = scen
     for idx, rule in bad:
         e = ev[idx - 1]
-        rec = {"event_index": idx, "event": e, "scenario": scen_of[idx], "rule": rule}
+        sc = scen_of[idx]
+        rec = {"event_index": idx, "event": e, "scenario": sc, "rule": rule,
+               "scenario_def": rows[sc] if sc is not None and sc < len(rows) else None}
         sig = {"sub": "dtlsrec", "kind": "tx", "rule": rule, "ct": e.get("ct"), "ev": e["ev"]}
         if rule in C03_TX_RULES:
             ck.divergence(sig, rec)
@@ -268,15 +281,25 @@ def run(tier):
     ck = vlib.Check(PID, tier)
     vlib.build_harness([BIN])
 
-    # receiver
+    # receiver: transition cover (every (role, phase, record) edge once) ...
     edges_path, edges, res = rx_edges(ck, tier)
     summ = replay_edges(ck, edges_path, tier)
+    rm(edges_path)
     n_edges = summ["edges"]
+    # ... and random behaviours with their real histories (several records in a row before the probe)
+    sim_path, sim_edges, sim_res = rx_edges(ck, tier, fb=SIM_FB, sim=SIM[tier])
+    sim_summ = replay_edges(ck, sim_path, tier + "_sim")
+    rm(sim_path)
     keyed = [e for e in edges if e["keys"]]
     unauth = [e for e in keyed if not e["authentic"]]
     ck.cov["rx"] = {"edges": n_edges, "after_keys": len(keyed), "unauthentic_after_keys": len(unauth),
                     "pairs_built": summ["pairs"],
                     "flip_positions": sum(1 for e in edges if e["act"]["cls"] == "e1-flip"),
+                    "sim": {"behaviours": SIM[tier]["num"], "depth": SIM[tier]["depth"], "edges": sim_summ["edges"],
+                            "histories": len({json.dumps([e["role"], e["pre"]]) for e in sim_edges}),
+                            "unrealised": sim_summ["unrealised"], "pairs_built": sim_summ["pairs"],
+                            "max_records_before_probe": sim_summ["max_records_before_probe"]},
+                    "max_records_before_probe": summ["max_records_before_probe"],
                     "observed_outcomes": [o for o in summ["observed"] if "e1-flip" not in o[0] and "e1-trunc" not in o[0]][:120]}
     exhaustive_rx = res["finished"] and n_edges == len(edges)
 
@@ -285,15 +308,16 @@ def run(tier):
     rows = concretise(scen, tier)
     trace, eg = run_egress(ck, rows, tier)
     n_ev, bad = validate_trace(ck, trace, tier)
-    judge_trace(ck, trace, bad)
+    judge_trace(ck, trace, bad, rows)
     eg_sum = [r for r in eg if r.get("type") == "summary"][0]
     n_records = sum(r["records"] for r in eg if r.get("type") == "scenario")
     ck.cov["tx"] = {"scenarios": len(rows), "records_captured": n_records, "trace_events": n_ev,
                     "lossy_scenarios": eg_sum["lossy_scenarios"], "rules_broken": len(bad)}
 
-    ck.cov["traces_validated_against_impl"] = n_edges + len(rows)
-    ck.cov["evaluations"] = n_edges + n_records
-    ck.cov["distinct_nontrivial"] = len({edge_key(e) for e in keyed}) + \
+    rm(trace)
+    ck.cov["traces_validated_against_impl"] = n_edges + sim_summ["edges"] - sim_summ["unrealised"] + len(rows)
+    ck.cov["evaluations"] = n_edges + sim_summ["edges"] - sim_summ["unrealised"] + n_records
+    ck.cov["distinct_nontrivial"] = len({edge_key(e) for e in keyed}) + len({edge_key(e) for e in sim_edges if e["keys"]}) + \
         len({json.dumps([r["sender"], r["sizes"], r["close"], r["early"]]) for r in rows})
     ck.cov["exhaustive"] = bool(exhaustive_rx)
     ck.cov["rule"] = ("rx: every (role, phase, record) edge of the DtlsRecord model - content type x authenticity class "
@@ -318,6 +342,15 @@ def run(tier):
         "concurrency on an 8-thread runtime, every emitted record being checked",
         "trusted: TLC, the harness' AES-GCM record codec (aes-gcm crate), loopback FIFO delivery per socket",
     ]
+    finish(ck)
+
+
+def finish(ck):
+    """Violations on executed cases stand; cases that could not be executed are a tool error otherwise."""
+    te = getattr(ck, "tool_errors", [])
+    ck.notes += te
+    if te and not ck.violations:
+        raise vlib.ToolError("; ".join(te)[:1500])
     ck.finish()
 
 
@@ -333,16 +366,14 @@ def replay(path):
         summ = replay_edges(ck, ep, "one")
         ck.cov.update(states=1, transitions=1, traces_validated_against_impl=summ["edges"], samples=[rec["case"]])
     else:
-        scen_path = os.path.join(ck.dir, f"scen_quick.ndjson")
-        rows = vlib.read_ndjson(scen_path) if os.path.exists(scen_path) else []
-        idx = rec.get("scenario")
-        if idx is None or idx >= len(rows):
-            raise vlib.ToolError("scenario of the recorded violation not found; re-run the check")
-        trace, _ = run_egress(ck, [rows[idx]], "one")
+        sd = rec.get("scenario_def")
+        if not sd:
+            raise vlib.ToolError("the recorded violation carries no scenario")
+        trace, _ = run_egress(ck, [sd], "one")
         n_ev, bad = validate_trace(ck, trace, "one")
-        judge_trace(ck, trace, bad)
-        ck.cov.update(traces_validated_against_impl=1, samples=[rows[idx]])
-    ck.finish()
+        judge_trace(ck, trace, bad, [sd])
+        ck.cov.update(traces_validated_against_impl=1, samples=[sd])
+    finish(ck)
 
 
 def selftest():
